@@ -539,6 +539,7 @@ def render_images(case):
                 continue
             # which source?  match by exact pixels against every raster source
             match = []
+            requant = {}
             for name, spec in case['images'].items():
                 if spec['kind'] == 'svg':
                     continue
@@ -552,14 +553,22 @@ def render_images(case):
                         from PIL import Image
                         src = Image.open(io.BytesIO(data))
                         src.load()
-                        if src.mode == dec['mode'] and [src.width, src.height] == dec['size'] and src.tobytes() == dec['pix']:
-                            match.append(name)
+                        if src.mode == dec['mode'] and [src.width, src.height] == dec['size']:
+                            if src.tobytes() == dec['pix']:
+                                match.append(name)
+                            else:
+                                emb = Image.open(io.BytesIO(dec['raw']))
+                                # same size and mode: re-encoded; with the source's quantisation tables and sampling or not,
+                                # and how far the decoded samples moved
+                                requant[name] = {
+                                    'same_qtables': dict(emb.quantization) == dict(src.quantization),
+                                    'maxdiff': max(abs(a - b) for a, b in zip(src.tobytes(), dec['pix']))}
                     continue
                 mode, size, pix, alpha = _source_pixels(data)
                 if mode == dec['mode'] and size == dec['size'] and pix == dec['pix'] and alpha == dec['alpha']:
                     match.append(name)
             xobjs[num] = {'mode': dec['mode'], 'size': dec['size'], 'filter': dec['filter'], 'has_alpha': dec['alpha'] is not None,
-                          'match': match, 'interpolate': bool(o.dict.get('Interpolate')),
+                          'match': match, 'reencoded': requant, 'interpolate': bool(o.dict.get('Interpolate')),
                           'decode': [float(x) for x in d.resolve(dec.get('decode'))] if dec.get('decode') else None,
                           'app14': dec.get('app14'), 'bpc': dec.get('bpc'), 'cs': dec.get('cs')}
     obs['xobjects'] = xobjs
@@ -703,14 +712,20 @@ def xobject_probe(case):
     from PIL import Image
     import pdfread
     _patch_draw()
-    blobs = {it['id']: make_mode_image(it['spec']) for it in case['items']}
+    # items may share one URL (it['src']) while asking for different orientations
+    blobs = {}
+    for it in case['items']:
+        src = it.get('src') or it['id']
+        if src not in blobs:
+            blobs[src] = make_mode_image(it['spec'])
 
     def fetcher(url, *a, **k):
         data, mime = blobs[url.rsplit('/', 1)[-1]]
         return {'string': data, 'mime_type': mime}
 
     html = '<style>@page{size:900px 900px;margin:0}body{margin:0}img{display:block}</style>' + ''.join(
-        '<img id="%s" src="%s" style="image-orientation:%s">' % (it['id'], it['id'], it['orientation']) for it in case['items'])
+        '<img id="%s" src="%s" style="image-orientation:%s">' % (it['id'], it.get('src') or it['id'], it['orientation'])
+        for it in case['items'])
     opts = dict(case.get('options', {}))
     doc = HTML(string=html, url_fetcher=fetcher, base_url='http://img.test/').render(**opts)
     keys = {}
@@ -743,7 +758,7 @@ def xobject_probe(case):
         eid, bw, bh = keys[owner[1]]
         obj = d.objects.get(rec[1])
         it = next(i for i in case['items'] if i['id'] == eid)
-        data = blobs[eid][0]
+        data = blobs[it.get('src') or eid][0]
         coarse = it['spec']['fmt'] != 'png'
         try:
             painted = _painted_samples(d, obj, coarse)
@@ -753,7 +768,7 @@ def xobject_probe(case):
         src_q = None
         if it['spec']['fmt'] != 'png':
             src_q = {k: list(v) for k, v in Image.open(io.BytesIO(data)).quantization.items()}
-        out['items'][eid] = {'painted': painted, 'truth': {'mode': tmode, 'size': tsize, 'grid': tgrid, 'samples': tsamples},
+        out['items'][eid] = {'obj': rec[1], 'painted': painted, 'truth': {'mode': tmode, 'size': tsize, 'grid': tgrid, 'samples': tsamples},
                              'box': [bw, bh], 'same_bytes': getattr(obj, 'raw', None) == data, 'src_qtables': src_q}
     return out
 
